@@ -148,6 +148,15 @@ def _case_on(repo, it, S, spec, genome, stale=False):
                             f"other records: {d_}", f.qual))
         except Raised as ex:
             out.append(("records independent of the hash seed", f"{desc}: raises {ex.exc_name} with multi-valued qualifiers", f.qual))
+        # force_strand only matters for transcripts on another strand than their gene: on these single-strand models the
+        # records are the same with and without it (no transcript skipped)
+        g3 = build_gene_obj(it, S, m, par, None)
+        k3, v3 = run(it, f, [g3, it.enum("GenbankFlavor")[flavor], False, it.enum("TranslationTable")[table], upd], {}, None)
+        recs3 = [shown_rec(x) for x in it.iterate(v3)] if k3 == "ok" else v3
+        if k3 != "ok" or recs3 != [shown_rec(x) for x in recs]:
+            out.append(("records with force_strand=False", f"{desc}: with force_strand=False the records are "
+                        f"{[x[0] for x in recs3] if k3 == 'ok' else recs3}; with force_strand=True {[x.fields['type'] for x in recs]} (every transcript "
+                        f"is on the strand of its gene)", f"{W}:transcripts_to_feature"))
     sval = {"PLUS": 1, "MINUS": -1}[m["strand"]]
     want = [("gene", [(min(t["exons"][0][0] for t in m["txs"]), max(t["exons"][-1][1] for t in m["txs"]))], None)]
     for t in m["txs"]:
@@ -562,6 +571,31 @@ def _collections_case(repo, it, S, spec):
             out.append(("record sequence is the whole sequence", f"collection_to_genbank of a collection with {how} ({flavor}): the record holds "
                         f"{k}:{str(got)[:20]}.. ({len(got) if isinstance(got, str) else '-'} bases); the collection's sequence has {len(GENOME)} bases "
                         f"(features keep chromosome coordinates, so a cut sequence puts them on the wrong bases)", f.qual))
+    # record annotations: one dictionary per collection reaches that collection's record; molecule_type is filled in when absent
+    # or empty and kept when given; a list of another length is refused with the documented error
+    colA = mk_collection(it, [g], None, sequence_name="chrN", parent_or_seq_chunk_parent=par)
+    for how, anns, want_mt in (("no annotations", None, ["DNA"]), ("annotations without molecule_type", [{"topology": "circular"}], ["DNA"]),
+                               ("annotations with an empty molecule_type", [{"molecule_type": ""}], ["DNA"]),
+                               ("annotations with molecule_type RNA", [{"molecule_type": "RNA", "topology": "linear"}], ["RNA"])):
+        n_extra += 1
+        sink = SeqIOSink()
+        it.overrides["SeqIO"] = sink
+        k, v = run(it, f, [[colA], "sink"], {"genbank_type": it.enum("GenbankFlavor")[flavor], "seqrecord_annotations": anns}, None)
+        if k != "ok" or not sink.written or not sink.written[0][0]:
+            out.append(("record annotations", f"collection_to_genbank with {how} ({flavor}) -> {k}:{v}", f.qual))
+            continue
+        ann = sink.written[0][0][0].fields["annotations"]
+        got_mt = [ann.get("molecule_type")] if isinstance(ann, dict) else ann
+        if got_mt != want_mt or (anns and any(ann.get(k_) != v_ for k_, v_ in anns[0].items() if k_ != "molecule_type")):
+            out.append(("record annotations", f"collection_to_genbank with {how} ({flavor}): the record carries annotations {ann}; expected "
+                        f"molecule_type {want_mt[0]!r} and the supplied entries", f.qual))
+    n_extra += 1
+    sink = SeqIOSink()
+    it.overrides["SeqIO"] = sink
+    k, v = run(it, f, [[colA], "sink"], {"genbank_type": it.enum("GenbankFlavor")[flavor], "seqrecord_annotations": [{"a": 1}, {"b": 2}]}, None)
+    if not (k == "raise" and v == "GenBankExportError"):
+        out.append(("record annotations", f"collection_to_genbank with two annotation dictionaries for one collection ({flavor}) -> {k}:{v}; "
+                    f"documented GenBankExportError", f.qual))
     # a collection derived by incorporating a variant is exported on ITS sequence (the alternative haplotype)
     n_extra += 1
     try:
